@@ -129,6 +129,12 @@ def scope_family() -> list[tuple[str, str, list]]:
         "mon.write(f\"{'ON' if led.get_state() else 'OFF'} after {n} toggles\")\nmon.write(f\"{'a' if n > 1 else 'b'}{'c' if n > 2 else 'd'}\")\n"
         "mon.write(f\"{'x' if n > 1 else 'y'}{n}\")\nmon.write(f\"{name} is {n}\")\nmon.write(f\"{tag()}-{name}\")\nmon.write(f\"{'only' if n else 'one'}\")\n"
         "msg = f\"{'hi' if n > 0 else 'lo'} there\"\nmon.write(msg)\ndef lab(k):\n    return f\"{'big' if k > 5 else 'small'}:{k}\"\nmon.write(lab(7))\n")
+    # pass-ending `continue` in arms of conditionals nested in conditionals of the main loop body (it is `return;` in loop())
+    add("continue-in-nested-arms", "k = 0\nwhile True:\n    k += 1\n    if k > 0:\n        if k % 2 == 0:\n            mon.write(k)\n        else:\n            continue\n    if k > 1:\n        if k > 5:\n            mon.write(1)\n        elif k > 3:\n            continue\n        else:\n            if k == 2:\n                continue\n    mon.write(7)\n")
+    # names first bound inside a loop body that hold strings / lists / floats (the hoisted declaration has their type)
+    add("first-in-loop-string-list-float", "pot = Potentiometer(\"A0\")\nfor i in range(2):\n    word = \"w\" + \"x\"\n    nums = [i, i + 1]\n    ratio = i * 0.5\n    if i == 1:\n        tag = f\"t{i}\"\n        parts = [1.5, 2.5]\n"
+        "mon.write(word)\nmon.write(nums[0])\nmon.write(ratio)\nmon.write(tag)\nmon.write(parts[1])\nk = 0\nwhile k < 2:\n    k += 1\n    line = \"n=\" + str(k)\n    hist = [k, k]\nmon.write(line)\nmon.write(hist[1])\n"
+        "while True:\n    for j in range(2):\n        cell = \"c\" + str(j)\n        row = [j, 2]\n    mon.write(cell)\n    mon.write(row[0])\n")
     add("helper-uses-led", "led = Led(5)\ndef flash():\n    led.on()\n    sleep(5)\n    led.off()\nwhile True:\n    flash()\n")
     add("helper-uses-pot", 'pot = Potentiometer("A0")\ndef level():\n    return pot.read()\nwhile True:\n    mon.write(level())\n')
     add("helper-uses-ultrasonic", "us = Ultrasonic(trig=7, echo=8)\ndef dist():\n    return us.measure_distance()\nwhile True:\n    mon.write(dist())\n", ["ultrasonic-in-helper"])
